@@ -34,7 +34,7 @@ func ruleC18Sources(c *Ctx) {
 	hname := funcName(host)
 	args := extCall.Common().Args
 	ext := args[len(args)-1]
-	sl := backSlice(ext)
+	sl := sliceUp(buildConc(c), ext, host) // through parameters to the call sites: the declarations may be gathered by a caller
 	for _, getter := range []string{"GetDeclaredAccounts", "GetDeclaredCommodities"} {
 		has := sliceHasCall(sl, func(cal *ssa.Function, _ *ssa.Call) bool {
 			return calleeNameIs(cal, "workspace.Workspace)."+getter)
@@ -43,10 +43,36 @@ func ruleC18Sources(c *Ctx) {
 			"the workspace's declared set flows into the external declarations",
 			"the external declarations handed to the analyzer do not depend on Workspace."+getter+": workspace declarations are ignored")
 	}
+	// the tree parameter: in the function that calls the analyzer, or in the nearest caller up the chain that
+	// still holds the declarations' sources
 	var resolvedParam *ssa.Parameter
-	for _, p := range host.Params {
-		if typeHasSuffix(p.Type(), "include.ResolvedJournal") {
-			resolvedParam = p
+	{
+		cur, val := host, ext
+		for depth := 0; depth < 4 && resolvedParam == nil; depth++ {
+			local := backSlice(val)
+			var other *ssa.Parameter
+			for v := range local {
+				if p, ok := v.(*ssa.Parameter); ok && p.Parent() == cur {
+					if typeHasSuffix(p.Type(), "include.ResolvedJournal") {
+						resolvedParam = p
+					} else if other == nil || p.Name() < other.Name() {
+						other = p
+					}
+				}
+			}
+			if resolvedParam != nil || other == nil {
+				break
+			}
+			sites := cgView{c}.callersOf(cur)
+			if len(sites) != 1 {
+				break
+			}
+			for i, q := range cur.Params {
+				if q == other && i < len(sites[0].Common().Args) {
+					val = sites[0].Common().Args[i]
+				}
+			}
+			cur = sites[0].Parent()
 		}
 	}
 	c.check(resolvedParam != nil && sl[resolvedParam], "C18-SOURCES", hname, "include-tree declarations reach the checks", extCall.Pos(),
@@ -90,13 +116,15 @@ func ruleC18Sources(c *Ctx) {
 		n++
 		bad := ""
 		blks := []*ssa.BasicBlock{call.Block()}
-		for f, depth := call.Parent(), 0; f != host && depth < 3; depth++ {
+		hostReach := Reach(c.P.CallGraph("vta"), []*ssa.Function{call.Parent()}, true)
+		for f, depth := call.Parent(), 0; f != host && !hostReach[host] && depth < 3; depth++ {
 			sites := cgv.callersOf(f)
 			if len(sites) != 1 {
 				break
 			}
 			blks = append(blks, sites[0].Block())
 			f = sites[0].Parent()
+			hostReach = Reach(c.P.CallGraph("vta"), []*ssa.Function{f}, true)
 		}
 		for _, blk := range blks {
 			for _, cond := range controlConds(blk) {
@@ -127,31 +155,41 @@ func ruleC18Sources(c *Ctx) {
 			"the workspace declaration lookup is conditioned on "+bad+": switching one warning kind off changes what the other kind sees")
 	}
 	c.census("C18-SOURCES", "workspace declaration lookups on the diagnostics path", n, 2)
-	// callers hand over the tree they just loaded
+	// callers hand over the tree they just loaded: followed upwards through functions that merely pass their own
+	// tree parameter on
 	g := c.P.CallGraph("vta")
 	nCallers := 0
-	if node := g.Nodes[host]; node != nil && resolvedParam != nil {
+	var up func(fn *ssa.Function, param *ssa.Parameter, depth int)
+	up = func(fn *ssa.Function, param *ssa.Parameter, depth int) {
+		node := g.Nodes[fn]
+		if node == nil || param == nil || depth > 3 {
+			return
+		}
+		idx := -1
+		for i, p := range fn.Params {
+			if p == param {
+				idx = i
+			}
+		}
 		for _, e := range node.In {
 			call, ok := e.Site.(*ssa.Call)
-			if !ok {
+			if !ok || call.Common().StaticCallee() != fn || idx < 0 || idx >= len(call.Common().Args) {
+				continue
+			}
+			arg := call.Common().Args[idx]
+			if p, isParam := stripConv(arg).(*ssa.Parameter); isParam && p.Parent() == e.Caller.Func {
+				up(e.Caller.Func, p, depth+1)
 				continue
 			}
 			nCallers++
-			idx := -1
-			for i, p := range host.Params {
-				if p == resolvedParam {
-					idx = i
-				}
-			}
-			okArg := false
-			if idx >= 0 && idx < len(call.Common().Args) {
-				as := backSlice(call.Common().Args[idx])
-				okArg = sliceHasCall(as, func(cal *ssa.Function, _ *ssa.Call) bool { return calleeNameIs(cal, "include.Loader).LoadFromContent") })
-			}
+			okArg := sliceHasCall(backSlice(arg), func(cal *ssa.Function, _ *ssa.Call) bool { return calleeNameIs(cal, "include.Loader).LoadFromContent") })
 			c.check(okArg, "C18-SOURCES", funcName(e.Caller.Func), "passes the tree loaded for this content", call.Pos(),
 				"the include tree passed to the analysis is the one loaded from the analysed content",
 				"the analysis is not given the include tree loaded from the analysed content")
 		}
+	}
+	if resolvedParam != nil {
+		up(resolvedParam.Parent(), resolvedParam, 0)
 	}
 	c.census("C18-SOURCES", "callers of the analysis function", nCallers, 1)
 }
@@ -1392,6 +1430,15 @@ func sameAddr(a, b ssa.Value, depth int) bool {
 		return ok && x.Index == y.Index && (sameAddr(x.X, y.X, depth+1) || sameLoad(x.X, y.X))
 	case *ssa.UnOp:
 		return sameLoad(a, b)
+	}
+	return false
+}
+
+func sliceHasParamOf(sl map[ssa.Value]bool, f *ssa.Function) bool {
+	for v := range sl {
+		if p, ok := v.(*ssa.Parameter); ok && p.Parent() == f {
+			return true
+		}
 	}
 	return false
 }
